@@ -148,6 +148,59 @@ def make_plan(i, master, tier):
     return random_plan(seed, tier)
 
 
+def arm_random_faults(case, procs, fr, has_atc, p_none=0.35):
+    """Arms 0..n faults at random sites of the case (stub steps, probe exit codes, ATC spawn error)."""
+    faults = []
+    mode = fr.random()
+    sites = []
+    pos = P.index_case(case)
+    for ph in casegen.INSTR_PHASES:
+        for item in case[ph]:
+            if item['k'] == 'fault':
+                if ph == 'conf':
+                    sites.append((item['id'], 'main', 'main_conf'))
+                else:
+                    sites.append((item['id'], 'symbols', 'symbols'))
+                    sites.append((item['id'], 'pre_sds', 'pre_sds'))
+                    if ph != 'cleanup':
+                        sites.append((item['id'], 'post_setup', 'post_setup'))
+                    sites.append((item['id'], 'main', 'main_as' if ph == 'assert' else 'main_sh'))
+                    sites.append((item['id'], 'main', 'main_as' if ph == 'assert' else 'main_sh'))
+            elif item['k'] == 'probe':
+                sites.append((item['id'], 'main', 'probe'))
+                sites.append((item['id'], 'main', 'probe'))
+    for step in ('parse', 'symbols', 'pre_sds', 'post_setup', 'prepare', 'execute', 'execute'):
+        sites.append(('act', step, step))
+    if has_atc:
+        sites.append(('atc', 'execute', 'atc_spawn'))
+
+    def arm(site):
+        ident, step, kc = site
+        if kc == 'probe':
+            procs[ident] = dict(procs.get(ident, {}), exit=fr.choice([1, 2, 3, 127, 255]))
+            return
+        if kc == 'atc_spawn':
+            procs['atc'] = dict(procs['atc'], spawn_error=fr.choice(['ENOENT', 'EACCES']))
+            return
+        kind = fr.choice(KINDS[kc])
+        f = {'id': ident, 'step': step, 'kind': kind}
+        if kind == 'raise_exc':
+            f['exc'] = fr.choice(EXCS)
+        if not any(x['id'] == ident and x['step'] == step for x in faults):
+            faults.append(f)
+
+    if mode >= p_none and sites:
+        arm(fr.choice(sites))
+        if fr.random() < 0.4:
+            cl = [s for s in sites if s[0].startswith('l') and s[1] == 'main']
+            if cl:
+                arm(fr.choice(cl))
+        if fr.random() < 0.25:
+            for _ in range(fr.choice([1, 2, 3])):
+                arm(fr.choice(sites))
+    return faults
+
+
 def random_plan(seed, tier):
     g = kernel.stream(seed, 'gen')
     fr = kernel.stream(seed, 'faults')
@@ -175,54 +228,7 @@ def random_plan(seed, tier):
         case[ph] = items
     act_kind = g.choices(['sys', 'shell', 'empty'], [70, 20, 10])[0]
     case['act'] = {'lines': {'sys': ['% atc'], 'shell': ['$ atc arg'], 'empty': []}[act_kind]}
-    faults = []
-    mode = fr.random()
-    sites = []
-    pos = P.index_case(case)
-    for ph in casegen.INSTR_PHASES:
-        for item in case[ph]:
-            if item['k'] == 'fault':
-                if ph == 'conf':
-                    sites.append((item['id'], 'main', 'main_conf'))
-                else:
-                    sites.append((item['id'], 'symbols', 'symbols'))
-                    sites.append((item['id'], 'pre_sds', 'pre_sds'))
-                    if ph != 'cleanup':
-                        sites.append((item['id'], 'post_setup', 'post_setup'))
-                    sites.append((item['id'], 'main', 'main_as' if ph == 'assert' else 'main_sh'))
-                    sites.append((item['id'], 'main', 'main_as' if ph == 'assert' else 'main_sh'))
-            elif item['k'] == 'probe':
-                sites.append((item['id'], 'main', 'probe'))
-                sites.append((item['id'], 'main', 'probe'))
-    for step in ('parse', 'symbols', 'pre_sds', 'post_setup', 'prepare', 'execute', 'execute'):
-        sites.append(('act', step, step))
-    if act_kind != 'empty':
-        sites.append(('atc', 'execute', 'atc_spawn'))
-
-    def arm(site):
-        ident, step, kc = site
-        if kc == 'probe':
-            procs[ident] = dict(procs.get(ident, {}), exit=fr.choice([1, 2, 3, 127, 255]))
-            return
-        if kc == 'atc_spawn':
-            procs['atc'] = dict(procs['atc'], spawn_error=fr.choice(['ENOENT', 'EACCES']))
-            return
-        kind = fr.choice(KINDS[kc])
-        f = {'id': ident, 'step': step, 'kind': kind}
-        if kind == 'raise_exc':
-            f['exc'] = fr.choice(EXCS)
-        if not any(x['id'] == ident and x['step'] == step for x in faults):
-            faults.append(f)
-
-    if mode >= 0.35 and sites:
-        arm(fr.choice(sites))
-        if fr.random() < 0.4:
-            cl = [s for s in sites if s[0].startswith('l') and s[1] == 'main']
-            if cl:
-                arm(fr.choice(cl))
-        if fr.random() < 0.25:
-            for _ in range(fr.choice([1, 2, 3])):
-                arm(fr.choice(sites))
+    faults = arm_random_faults(case, procs, fr, act_kind != 'empty')
     entry = 'cli' if g.random() < 0.2 else 'structured'
     plan = _base_plan(seed, tier, case, status, act_mode, faults, entry, procs,
                       knob=kn.choice([1, 2, 3, 5, 8, 13, 64, 4096, 8192]))
